@@ -18,6 +18,7 @@ import time
 
 import z3
 
+from .symval import Mark
 from .symval import (Arr2C, Coll, LocalFunc, MapC, NR, RowDictC, ArrC, ContractError, DictC, ExcVal, Func, I, ListC, MaybeNone, Method, Module, Obj, Opaque,
                      R, Bo, Ref, SeqC, Sort, State, TStr, Unsupported, fresh, rv)
 from .report import REPO
@@ -310,7 +311,10 @@ class Engine:
         for a, d in zip(args.kwonlyargs, args.kw_defaults):
             if d is not None:
                 defaults[a.arg] = d
+        sliced = getattr(c, 'body_from', None) is not None
         for nm in names:
+            if sliced and nm not in c.params:
+                continue              # a slice declares the names it reads (params / locals); the others are not in scope
             if nm in c.params:
                 spec = c.params[nm]
                 st.env[nm] = spec.make(st, nm) if isinstance(spec, Sort) else spec
@@ -1541,6 +1545,20 @@ class Engine:
                 if k not in c.items:
                     raise Unsupported('KeyError on concrete dict key %r' % (k,))
                 return c.items[k]
+            if isinstance(c, (ArrC, SeqC)) and not isinstance(sl, ast.Slice):
+                so = self.ev(sl, st) if isinstance(sl, ast.AST) and isinstance(sl, (ast.Name, ast.Attribute, ast.Call)) else None
+                if isinstance(so, Mark) and so.kind == 'slice':
+                    lo, hi = to_z3(so.data[0]), to_z3(so.data[1])
+                    lo = z3.ToInt(lo) if z3.is_real(lo) else lo
+                    hi = z3.ToInt(hi) if z3.is_real(hi) else hi
+                    if getattr(self.c, 'check_bounds', True):
+                        self.oblige(st, 'slice-in-bounds[%s]' % ast.unparse(sl), z3.And(lo >= 0, lo <= hi, hi <= c.n), {'kind': 'IndexError'})
+                    k = fresh('k', I)
+                    if isinstance(c, ArrC):
+                        return st.new_ref(ArrC(z3.Lambda([k], c.vals[k + lo]), hi - lo,
+                                               None if c.nans is None else z3.Lambda([k], c.nans[k + lo]), kind=c.kind), 'slice')
+                    return st.new_ref(SeqC(z3.Lambda([k], c.arr[k + lo]), hi - lo,
+                                           None if c.nans is None else z3.Lambda([k], c.nans[k + lo])), 'slice')
             if isinstance(c, (ArrC, SeqC)):
                 if isinstance(sl, ast.Slice) and sl.lower is None and sl.upper is None and sl.step is not None and \
                         self.ev(sl.step, st) == -1:
@@ -2369,8 +2387,11 @@ class Engine:
                 kwargs[k.arg] = self.ev(k.value, st)
             else:
                 v = self.ev(k.value, st)
-                if isinstance(v, Ref) and isinstance(st.content(v), DictC):
+                if isinstance(v, Ref) and isinstance(st.content(v), DictC) and not (
+                        getattr(self.c, 'star_ok', False) and v is st.env.get('kwargs')):
                     kwargs.update(st.content(v).items)
+                elif getattr(self.c, 'star_ok', False):
+                    kwargs['**'] = v              # handed to the callee's contract as one opaque keyword pack
                 else:
                     raise Unsupported('**kwargs of a non-dict')
         return args, kwargs
@@ -2434,6 +2455,8 @@ class Engine:
             return self.method_on_value(f.recv, f.name, args, kwargs, st, node)
         if isinstance(f, MaybeNone):
             raise Unsupported('call of optional callable')
+        if isinstance(f, Mark) and self.c.calls.get('<mark>.__call__') is not None:
+            return self.c.calls['<mark>.__call__'](self, st, [f] + list(args), kwargs, node)
         raise Unsupported('call of %r' % (f,))
 
     def method_on_value(self, base, name, args, kwargs, st, node):
@@ -2722,7 +2745,14 @@ def _str(ex, st, args, kw, node):
     return Opaque(fresh('str', TStr.sort))
 
 
-BUILTINS = {'abs': _abs, 'max': _maxmin(True), 'min': _maxmin(False), 'len': _len, 'isinstance': _isinstance,
+def _slice(ex, st, args, kw, node):
+    """slice(lo, hi): a slice object (step 1), usable as a subscript of a 1-D array or sequence"""
+    if len(args) != 2:
+        raise Unsupported('slice() with %d arguments' % len(args))
+    return Mark('slice', args[0], args[1])
+
+
+BUILTINS = {'slice': _slice, 'abs': _abs, 'max': _maxmin(True), 'min': _maxmin(False), 'len': _len, 'isinstance': _isinstance,
             'float': _float, 'int': _int, 'bool': _bool, 'round': _round, 'list': _list, 'dict': _dict, 'sum': _sum,
             'str': _str, 'OrderedDict': _dict}
 
